@@ -418,6 +418,8 @@ theorem estimate_eq (c : Config α) (v : Nat) (st : List α) (x : α)
   · rename_i gcm hg
     split at h
     · cases h
+    split at h
+    · cases h
     · rename_i dst hd
       split at h
       · cases h
@@ -498,6 +500,8 @@ theorem estimate_ne_noPath (c : Config α) (v : Nat) (st : List α) :
   split at h
   · cases h
   · split at h
+    · cases h
+    split at h
     · cases h
     · split at h <;> cases h
 
